@@ -1205,4 +1205,253 @@ def sampleImage64 : Bytes :=
   le16 machineAmd64 ++ le16 0 ++ le32 0x674E0D02 ++ zeros 8 ++ le16 240 ++ le16 0x2022 ++
   (zeros 60 ++ le32 328 ++ zeros 48 ++ le32 0x2000 ++ zeros 124)
 
+
+/-! ## histories: one BeaconConfig object, one file object -/
+
+/-- attributes of the object after a history -/
+def cfgAfter (s : CfgState) (ops : List CfgOp) : CfgState := ops.foldl cfgNext s
+
+/-- the export stamp in force after a history: the argument of the last `pe_export_stamp` assignment, else the initial one -/
+def lastStamp : Option Int → List CfgOp → Option Int
+  | cur, [] => cur
+  | _, .setExportStamp x :: rest => lastStamp x rest
+  | cur, _ :: rest => lastStamp cur rest
+
+theorem cfgRun_append (enums : List Nat) (s : CfgState) (a b : List CfgOp) :
+    cfgRun enums s (a ++ b) = cfgRun enums s a ++ cfgRun enums (cfgAfter s a) b := by
+  induction a generalizing s with
+  | nil => simp [cfgRun, cfgAfter]
+  | cons op ops ih => simp [cfgRun, cfgAfter, ih, List.append_assoc]
+
+theorem cfgAfter_stamp (s : CfgState) (ops : List CfgOp) :
+    (cfgAfter s ops).exportStamp = lastStamp s.exportStamp ops := by
+  induction ops generalizing s with
+  | nil => rfl
+  | cons op ops ih =>
+    simp only [cfgAfter, List.foldl_cons] at ih ⊢
+    rw [ih]
+    cases op <;> rfl
+
+def CfgOp.isOtherAttr : CfgOp → Bool
+  | .setCompileStamp _ => true
+  | .setArch _ => true
+  | _ => false
+
+theorem cfgRun_ignores_other_attrs (enums : List Nat) (s : CfgState) (ops : List CfgOp) :
+    cfgRun enums s ops = cfgRun enums ⟨s.exportStamp, none, none⟩ (ops.filter (fun op => !op.isOtherAttr)) := by
+  induction ops generalizing s with
+  | nil => rfl
+  | cons op ops ih =>
+    cases op with
+    | readVersion => simp [cfgRun, cfgRead, cfgNext, CfgOp.isOtherAttr, ih s]
+    | readMaxEnum => simp [cfgRun, cfgRead, cfgNext, CfgOp.isOtherAttr, ih s]
+    | setExportStamp x => simp [cfgRun, cfgRead, cfgNext, CfgOp.isOtherAttr, ih { s with exportStamp := x }]
+    | setCompileStamp x => simp [cfgRun, cfgRead, cfgNext, CfgOp.isOtherAttr, ih { s with compileStamp := x }]
+    | setArch a => simp [cfgRun, cfgRead, cfgNext, CfgOp.isOtherAttr, ih { s with arch := a }]
+
+
+/-- same underlying bytes and file kind (only the position may differ) -/
+def SameFile (f g : PyFile) : Prop := g.data = f.data ∧ g.kind = f.kind
+
+theorem SameFile.refl (f : PyFile) : SameFile f f := ⟨rfl, rfl⟩
+theorem SameFile.trans {f g h : PyFile} (a : SameFile f g) (b : SameFile g h) : SameFile f h :=
+  ⟨b.1.trans a.1, b.2.trans a.2⟩
+
+theorem same_seekNat (f : PyFile) (n : Nat) : SameFile f (seekNat f n) := ⟨rfl, rfl⟩
+theorem same_read (f : PyFile) (n : Int) : SameFile f (f.read n).2 := ⟨rfl, rfl⟩
+theorem same_readStruct (f : PyFile) (n : Nat) : SameFile f (readStruct f n).2 := readStruct_data f n
+theorem same_seekSet {f : PyFile} {x : Int} {n : Nat} {g : PyFile} (h : f.seekSet x = .ok (n, g)) : SameFile f g := by
+  unfold PyFile.seekSet at h
+  split at h
+  · cases h
+  · injection h with h; injection h with _ h; subst h; exact ⟨rfl, rfl⟩
+
+theorem same_readSections (n : Nat) (f : PyFile) : SameFile f (readSections n f).2 := by
+  induction n generalizing f with
+  | zero => exact SameFile.refl f
+  | succ n ih =>
+    unfold readSections
+    have h1 := same_readStruct f sectionSize
+    rcases hr : readStruct f sectionSize with ⟨_ | b, f1⟩
+    · rw [hr] at h1; exact h1
+    · rw [hr] at h1
+      simp only
+      have h2 := ih f1
+      rcases hs : readSections n f1 with ⟨_ | bs, f2⟩ <;> (rw [hs] at h2; exact h1.trans h2)
+
+theorem same_findMzOffset (f : PyFile) (start : Option Nat) (maxrange : Nat) :
+    SameFile f (findMzOffset f start maxrange).2 := by
+  obtain ⟨_, h2, h3⟩ := scanLoop_spec classifyMz (startOf f start) maxrange (List.range maxrange) f
+  unfold findMzOffset
+  rcases hr : scanLoop classifyMz (startOf f start) maxrange (List.range maxrange) f with ⟨_ | ⟨o, u⟩, f1⟩ <;>
+    (rw [hr] at h2 h3; exact ⟨h2, h3⟩)
+
+theorem same_findArchitecture (f : PyFile) (start : Option Nat) (maxrange : Nat) :
+    SameFile f (findArchitecture f start maxrange).2 := by
+  obtain ⟨_, h2, h3⟩ := scanLoop_spec classifyArch (startOf f start) maxrange (List.range maxrange) f
+  unfold findArchitecture
+  rcases hr : scanLoop classifyArch (startOf f start) maxrange (List.range maxrange) f with ⟨_ | ⟨o, u⟩, f1⟩ <;>
+    (rw [hr] at h2 h3; exact ⟨h2, h3⟩)
+
+theorem same_magicMzAt (f : PyFile) (o : Nat) : SameFile f (magicMzAt f o).2 := by
+  unfold magicMzAt
+  simp only
+  split <;> exact (same_seekNat f o).trans (same_read _ _)
+
+theorem same_magicPeAt (f : PyFile) (o : Nat) : SameFile f (magicPeAt f o).2 := by
+  unfold magicPeAt
+  have h1 := (same_seekNat f o).trans (same_readStruct (seekNat f o) dosHeaderSize)
+  rcases hr : readStruct (seekNat f o) dosHeaderSize with ⟨_ | mz, f2⟩
+  · rw [hr] at h1; exact h1
+  · rw [hr] at h1
+    simp only
+    cases h3 : f2.seekSet (fieldVal mz dosLfanew + (o : Int)) with
+    | error e => exact h1
+    | ok p => exact h1.trans ((same_seekSet h3).trans (same_read _ _))
+
+
+theorem same_compileStampsAt (f : PyFile) (o : Nat) : SameFile f (compileStampsAt f o).2 := by
+  unfold compileStampsAt
+  simp only
+  have h1 := (same_seekNat f o).trans (same_readStruct (seekNat f o) dosHeaderSize)
+  rcases hr : readStruct (seekNat f o) dosHeaderSize with ⟨_ | mz, f2⟩
+  · rw [hr] at h1; exact h1
+  rw [hr] at h1
+  simp only
+  cases h3 : f2.seekSet (fieldVal mz dosLfanew + (o : Int)) with
+  | error e => exact h1
+  | ok p3 =>
+  obtain ⟨n3, f3⟩ := p3
+  have h3' := h1.trans (same_seekSet h3)
+  simp only
+  have h4 := h3'.trans (same_readStruct f3 sigSize)
+  rcases hr4 : readStruct f3 sigSize with ⟨_ | sg, f4⟩
+  · rw [hr4] at h4; exact h4
+  rw [hr4] at h4
+  simp only
+  have h5 := h4.trans (same_readStruct f4 fileHeaderSize)
+  rcases hr5 : readStruct f4 fileHeaderSize with ⟨_ | img, f5⟩
+  · rw [hr5] at h5; exact h5
+  rw [hr5] at h5
+  simp only
+  have h6 := h5.trans (same_readStruct f5 (optSize (decide (fieldVal img fhMachine = (machineAmd64 : Int)))))
+  rcases hr6 : readStruct f5 (optSize (decide (fieldVal img fhMachine = (machineAmd64 : Int)))) with ⟨_ | opt, f6⟩
+  · rw [hr6] at h6; exact h6
+  rw [hr6] at h6
+  simp only
+  have h7 := h6.trans (same_readSections (fieldVal img fhNumberOfSections).toNat f6)
+  rcases hr7 : readSections (fieldVal img fhNumberOfSections).toNat f6 with ⟨_ | secs, f7⟩
+  · rw [hr7] at h7; exact h7
+  rw [hr7] at h7
+  simp only
+  cases List.find? (sectionContains (fieldVal opt (optExportVA (decide (fieldVal img fhMachine = (machineAmd64 : Int)))))) secs with
+  | none => exact h7
+  | some ds =>
+    simp only
+    cases h8 : f7.seekSet (fieldVal opt (optExportVA (decide (fieldVal img fhMachine = (machineAmd64 : Int)))) - fieldVal ds secVirtualAddress + fieldVal ds secPointerToRawData + (o : Int)) with
+    | error e => exact h7
+    | ok p8 =>
+      obtain ⟨n8, f8⟩ := p8
+      simp only
+      have h9 := (h7.trans (same_seekSet h8)).trans (same_readStruct f8 exportDirSize)
+      rcases hr9 : readStruct f8 exportDirSize with ⟨_ | ed, f9⟩ <;> (rw [hr9] at h9; exact h9)
+
+theorem same_prependAppendAt (f : PyFile) (o : Nat) : SameFile f (prependAppendAt f o).2 := by
+  unfold prependAppendAt
+  simp only
+  have hp : SameFile f (if o > 0 then (some ((seekNat f 0).read (o : Int)).1, ((seekNat f 0).read (o : Int)).2) else ((none : Option Bytes), f)).2 := by
+    split
+    · exact (same_seekNat f 0).trans (same_read _ _)
+    · exact SameFile.refl f
+  generalize (if o > 0 then (some ((seekNat f 0).read (o : Int)).1, ((seekNat f 0).read (o : Int)).2) else ((none : Option Bytes), f)) = pf at hp
+  obtain ⟨prepend, fp⟩ := pf
+  simp only at hp ⊢
+  have h1 := (hp.trans (same_seekNat fp o)).trans (same_readStruct (seekNat fp o) dosHeaderSize)
+  rcases hr : readStruct (seekNat fp o) dosHeaderSize with ⟨_ | mz, f2⟩
+  · rw [hr] at h1; exact h1
+  rw [hr] at h1
+  simp only
+  cases h3 : f2.seekSet (fieldVal mz dosLfanew + (o : Int) + 4) with
+  | error e => exact h1
+  | ok p3 =>
+  obtain ⟨n3, f3⟩ := p3
+  simp only
+  have h4 := (h1.trans (same_seekSet h3)).trans (same_readStruct f3 fileHeaderSize)
+  rcases hr4 : readStruct f3 fileHeaderSize with ⟨_ | img, f4⟩
+  · rw [hr4] at h4; exact h4
+  rw [hr4] at h4
+  simp only
+  split
+  · have h5 := h4.trans (same_readStruct f4 (optSize (decide (fieldVal img fhMachine = (machineAmd64 : Int)))))
+    rcases hr5 : readStruct f4 (optSize (decide (fieldVal img fhMachine = (machineAmd64 : Int)))) with ⟨_ | opt, f5⟩
+    · rw [hr5] at h5; exact h5
+    rw [hr5] at h5
+    simp only
+    have h6 := h5.trans (same_readSections (fieldVal img fhNumberOfSections).toNat f5)
+    rcases hr6 : readSections (fieldVal img fhNumberOfSections).toNat f5 with ⟨_ | secs, f6⟩
+    · rw [hr6] at h6; exact h6
+    rw [hr6] at h6
+    simp only
+    cases h7 : f6.seekSet ((o : Int) + totalSize opt (decide (fieldVal img fhMachine = (machineAmd64 : Int))) secs) with
+    | error e => exact h6
+    | ok p7 =>
+      obtain ⟨n7, f7⟩ := p7
+      simp only
+      have h8 := (h6.trans (same_seekSet h7)).trans (same_read f7 1024)
+      split <;> exact h8
+  · exact h4
+
+theorem same_findCompileStamps (f : PyFile) (start : Option Nat) (maxrange : Nat) :
+    SameFile f (findCompileStamps f start maxrange).2 := by
+  unfold findCompileStamps
+  have h := same_findMzOffset f start maxrange
+  rcases hr : findMzOffset f start maxrange with ⟨_ | o, f1⟩
+  · rw [hr] at h; exact h
+  · rw [hr] at h; exact h.trans (same_compileStampsAt f1 o)
+
+theorem same_findMagicMz (f : PyFile) (start : Option Nat) (maxrange : Nat) :
+    SameFile f (findMagicMz f start maxrange).2 := by
+  unfold findMagicMz
+  have h := same_findMzOffset f start maxrange
+  rcases hr : findMzOffset f start maxrange with ⟨_ | o, f1⟩
+  · rw [hr] at h; exact h
+  · rw [hr] at h; exact h.trans (same_magicMzAt f1 o)
+
+theorem same_findMagicPe (f : PyFile) (start : Option Nat) (maxrange : Nat) :
+    SameFile f (findMagicPe f start maxrange).2 := by
+  unfold findMagicPe
+  have h := same_findMzOffset f start maxrange
+  rcases hr : findMzOffset f start maxrange with ⟨_ | o, f1⟩
+  · rw [hr] at h; exact h
+  · rw [hr] at h; exact h.trans (same_magicPeAt f1 o)
+
+theorem same_findStagePrependAppend (f : PyFile) (start : Option Nat) (maxrange : Nat) :
+    SameFile f (findStagePrependAppend f start maxrange).2 := by
+  unfold findStagePrependAppend
+  have h := same_findMzOffset f start maxrange
+  rcases hr : findMzOffset f start maxrange with ⟨_ | o, f1⟩
+  · rw [hr] at h; exact h
+  · rw [hr] at h; exact h.trans (same_prependAppendAt f1 o)
+
+
+theorem same_peCall (f : PyFile) (start : Option Nat) (maxrange : Nat) (op : PeOp) :
+    SameFile f (peCall f start maxrange op).2 := by
+  cases op
+  · exact same_findMzOffset f start maxrange
+  · exact same_findArchitecture f start maxrange
+  · exact same_findCompileStamps f start maxrange
+  · exact same_findMagicMz f start maxrange
+  · exact same_findMagicPe f start maxrange
+  · exact same_findStagePrependAppend f start maxrange
+
+/-- what each helper must report for the stage `P ++ I` -/
+def stageAnswer (P I : Bytes) : PeOp → PeOut
+  | .mz => .mz (some P.length)
+  | .arch => .arch (some (Img.arch I))
+  | .stamps => .stamps (.ok (some (Img.compileStamp I), Img.exportStamp I))
+  | .mmz => .mmz (Img.magicMz I)
+  | .mpe => .mpe (.ok (some (Img.magicPe I)))
+  | .ppa => .ppa (.ok (prependOf P, Img.append I))
+
+
 end C18
